@@ -284,7 +284,7 @@ Proof.
        shl_bits w bs out0 0 = firstn k out ++ shl_bits w bs (skipn k out0) carry /\
        shl_bits_carry w bs out0 0 = shl_bits_carry w bs (skipn k out0) carry).
   - intros k [[out carry] i] (-> & Hk & Hlen & Hsk & Hsb & Hsc) Hc.
-    rewrite ltb_of_nat in Hc. apply Nat.ltb_lt in Hc. split; [exact Hc|].
+    cond_true_in Hc. split; [exact Hc|].
     rewrite arr_get_nat by lia. cbn [bind]. rewrite dshl_ok by lia. cbn [bind].
     rewrite arr_set_nat by lia. cbn [bind]. rewrite dshr_ok by lia. cbn [bind].
     assert (Hd : nth k out 0 = nth k out0 0).
@@ -298,7 +298,7 @@ Proof.
     { rewrite Hsb. rewrite firstn_S_list_set by lia. rewrite <- app_assoc. reflexivity. }
     exact Hsc.
   - intros k [[out carry] i] (-> & Hk & Hlen & Hsk & Hsb & Hsc) Hc.
-    rewrite ltb_of_nat in Hc. apply Nat.ltb_ge in Hc. assert (k = n) by lia. subst k.
+    cond_false_in Hc. assert (k = n) by lia. subst k.
     rewrite (skipn_all2 out0) in Hsb, Hsc by lia. cbn [shl_bits shl_bits_carry] in Hsb, Hsc.
     rewrite app_nil_r, firstn_all2 in Hsb by lia. rewrite Hsb, Hsc.
     destruct out as [|d t]; [cbn [length] in Hlen; lia|].
